@@ -29,11 +29,11 @@ type File struct {
 
 // Tree is a materialised fixture.
 type Tree struct {
-	Base   string // parent directory
-	Root   string // Base/root
-	Files  map[string]*File
-	ByTok  map[string]*File
-	Dirs   map[string]bool
+	Base  string // parent directory
+	Root  string // Base/root
+	Files map[string]*File
+	ByTok map[string]*File
+	Dirs  map[string]bool
 }
 
 var tokRe = regexp.MustCompile(`TOK[0-9A-Z]{6,}X`)
